@@ -217,7 +217,7 @@ def run_case(i, tier):
         for m2 in range(1, m1 + 1):
             for q in ("droop", "hare"):
                 for sim in (True, False):
-                    for tb in (None, "random", "borda"):
+                    for tb in ((None, "random") if tier == "quick" else (None, "random", "borda")):
                         for tr in (("fractional", "random") if tag == "int" else ("fractional",)):
                             kw = dict(m_1=m1, m_2=m2, quota=q, simultaneous=sim, tiebreak=tb, transfer=tr)
                             _alaska(i, case, kw, cnt, out)
